@@ -151,6 +151,24 @@ PROPS = {
         assumptions=["indentation mixing tabs and blanks inside one line is a syntax error (C05), not layout"],
         subs=[rapid("layouts", "TestC08Layouts", 500, 5000)],
     ),
+    "C09": dict(
+        technique="differential PBT over pairs of executions (same process with interfering runners and global math/rand use in between; fresh child processes) + range predicate over captured draws",
+        level_text="Generated scripts whose lines, set statements and conditions use dice, random and random_range (so that flow depends on the draws) are run twice with the "
+                   "same seed and choices; between the runs other runners with the same and another seed are created and driven (one left half-way and continued "
+                   "afterwards) and the global math/rand source is consumed and re-seeded: traces, error texts, host-function/command logs and final variables must "
+                   "be identical. The test binary re-executes itself to repeat the run in fresh processes (once cold, once after unrelated runners ran first). A "
+                   "third sub-check captures every draw exactly for arbitrary seeds and bounds (n in [1,2^53), a <= b within +-2^52, n=1 and a=b included): "
+                   "integer in range, random() in [0,1), same sequence on a second runner. Search, not proof.",
+        level_note="Model-free: nothing is assumed about which numbers a seed produces. The empty seed (random) is outside the property.",
+        rule="script x seed from [0-9a-z]{1,16} x choices; non-trivial = at least 3 call sites of random built-ins and at least 2 distinct rendered draws; ranges: "
+             "at least 3 draws with at least 2 distinct values; distinct = distinct serialised cases.",
+        assumptions=["child processes are started from the same test binary (os.Args[0])"],
+        subs=[
+            rapid("determinism", "TestC09Determinism", 600, 6000),
+            rapid("cross-process", "TestC09CrossProcess", 12, 60, shards=dict(quick=1, thorough=16)),
+            rapid("ranges", "TestC09Ranges", 5000, 50000),
+        ],
+    ),
     "C11": dict(
         technique="model-based PBT over jump histories: reference visit counter vs rendered visited()/visited_count() and Snapshot().VisitedNodes at every step; bounded all-paths enumeration",
         level_text="Jump-heavy generated scripts (2-5 nodes, self-loops and cycles, jumps by name and by expression out of nested option/if bodies, failing jumps "
